@@ -218,7 +218,7 @@ def _rule_a(ctx) -> None:
                 ch = attr_chain(n.func)
                 nm = ".".join(ch) if ch else ""
                 if nm in ("object.__setattr__", "setattr") and len(n.args) >= 2 and not isinstance(n.args[1], ast.Constant):
-                    if f.qualname == "table.Table.__setattr__" and _is_internal_passthrough(f, n):
+                    if f.qualname == "table.Table.__setattr__" and _is_internal_passthrough(prog, f, n):
                         continue
                     raise AnalysisError(f"{f.qualname}: `{short(n)}` writes a field with a computed name - the field-based "
                                         f"rules cannot see what it touches")
@@ -268,15 +268,26 @@ def _rule_a(ctx) -> None:
            f"package scanned: {len(prog.functions)} functions, 0 in-place storage writes expected")
 
 
-def _is_internal_passthrough(f: FuncInfo, call: ast.Call) -> bool:
-    """Table.__setattr__: `if attr in (<literal internal names>): object.__setattr__(self, attr, value)`."""
-    for st in f.body:
-        if isinstance(st, ast.If) and any(n is call for n in ast.walk(st)):
-            t = st.test
-            return isinstance(t, ast.Compare) and len(t.ops) == 1 and isinstance(t.ops[0], ast.In) \
-                and isinstance(t.comparators[0], (ast.Tuple, ast.List, ast.Set)) \
-                and all(isinstance(e, ast.Constant) and isinstance(e.value, str) for e in t.comparators[0].elts)
-    return False
+def _is_internal_passthrough(prog, f: FuncInfo, call: ast.Call) -> bool:
+    """Table.__setattr__: object.__setattr__(self, attr, value) only where `attr in (<literal internal names>)` holds (the
+    literal tuple may be a module-level constant) - on the symx event log."""
+    from ..sites2 import interp_of
+    from ..symx import flatten_conds
+    it = interp_of(prog, f)
+    evs = [e for e in it.events if e.kind == "call" and e.node is call]
+    if not evs:
+        return False
+    for e in evs:
+        if len(e.term[2]) < 2:
+            return False
+        name = e.term[2][1]
+        ok = any(pol and t[0] == "cmp" and t[1] == "In" and t[2] == name and t[3][0] in ("tuple", "obj")
+                 and (t[3][0] != "tuple" or all(x[0] == "const" and isinstance(x[2], str) for x in t[3][1]))
+                 and (t[3][0] != "obj" or all(x[0] == "const" and isinstance(x[2], str) for x in it.objs[t[3][1]].init))
+                 for t, pol in flatten_conds(e.conds))
+        if not ok:
+            return False
+    return True
 
 
 _ORD: Dict[Tuple[int, str, str], int] = {}
@@ -392,6 +403,23 @@ def _fresh_column_tuple(e) -> bool:
     return False
 
 
+def _baseline() -> Set[str]:
+    from ..symx import baseline_functions
+    return baseline_functions()
+
+
+def _called_in_package(prog, f: FuncInfo) -> bool:
+    for g in prog.functions.values():
+        if g is f or isinstance(g.node, ast.Lambda):
+            continue
+        for c in prog.calls_in(g):
+            if isinstance(c.func, ast.Name) and c.func.id == f.name:
+                return True
+            if isinstance(c.func, ast.Attribute) and c.func.attr == f.name:
+                return True
+    return False
+
+
 # ------------------------------------------------------------------------------------------- c
 def _rule_c(ctx) -> None:
     prog = ctx.prog
@@ -418,6 +446,11 @@ def _rule_c(ctx) -> None:
                                        for w in sorted(foreign, key=lambda w: w.line)[:4]))
             continue
         ws = [w for w in s.writes if w.kind == "content"]
+        if ws and q not in _baseline() and f.name.startswith("_") and _called_in_package(prog, f):
+            # a private helper introduced after the reference tree: what it writes is charged to its callers, through the
+            # arguments they pass (a scratch list built by the caller is nobody's operand)
+            ctx.info(f"C01.c: new private helper {q} writes its parameter(s) {sorted({w.root for w in ws})}; judged at its callers")
+            continue
         ctx.ob("c.pure", f, "effects", not ws, "no content write on any parameter"
                + (f" (cache: {cache})" if cache else ""), f.node,
                message=f"{f.qualname} is not a mutator but writes to its operands: "
